@@ -524,7 +524,20 @@ pub fn fault_catalogue(nr: i64) -> Vec<Fault> {
         }
         libc::SYS_statx => vec![Errno(libc::ENOMEM), Errno(libc::EACCES), Errno(libc::EIO), Errno(libc::EINVAL), Errno(libc::ENOSYS), StatxNoMntId],
         libc::SYS_readlinkat | libc::SYS_readlink => vec![Errno(libc::ENOMEM), Errno(libc::EIO), Errno(libc::EACCES)],
-        libc::SYS_mkdirat | libc::SYS_mknodat | libc::SYS_unlinkat | libc::SYS_symlinkat | libc::SYS_linkat | libc::SYS_renameat | libc::SYS_renameat2 => vec![
+        // (renameat2 is the one call of this group that old kernels / seccomp profiles lack, and that
+        // filesystems refuse per flag)
+        libc::SYS_renameat2 => vec![
+            Errno(libc::ENOSPC),
+            Errno(libc::EDQUOT),
+            Errno(libc::EROFS),
+            Errno(libc::EIO),
+            Errno(libc::EACCES),
+            Errno(libc::EPERM),
+            Errno(libc::EINTR),
+            Errno(libc::ENOSYS),
+            Errno(libc::EINVAL),
+        ],
+        libc::SYS_mkdirat | libc::SYS_mknodat | libc::SYS_unlinkat | libc::SYS_symlinkat | libc::SYS_linkat | libc::SYS_renameat => vec![
             Errno(libc::ENOSPC),
             Errno(libc::EDQUOT),
             Errno(libc::EROFS),
